@@ -113,7 +113,9 @@ def judgeE2E : Judge := liftJudge fun input obs => do
     else if !contacted then ""
     else if respLim < 0 then
       -- stream mode: an honest body of any size arrives intact; a lying backend must not look like a clean success
-      if Spec.isShort respSrc then (if c.frameOK && c.status < 400 && !nobody then "e2e:response:short-body-clean-success:stream" else "")
+      -- (behind the Proxy's gzip compressor there is no Content-Length left to contradict: the truncation then shows
+      -- as a gzip stream without trailer, i.e. a decoding error at the client)
+      if Spec.isShort respSrc then (if c.frameOK && c.decErr == "" && c.status < 400 && !nobody then "e2e:response:short-body-clean-success:stream" else "")
       else if c.status != sc.bStatus then s!"e2e:response:status:{c.status}:stream"
       else if !nobody && !(c.frameOK && c.decSum == o.back.sum) then "e2e:response:stream-not-intact"
       else ""
@@ -133,7 +135,7 @@ def judgeE2E : Judge := liftJudge fun input obs => do
          tags := ["req-" ++ rel reqLim reqSrc, "resp-" ++ rel respLim respSrc, "req-enc:" ++ sc.body.enc, "resp-enc:" ++ sc.bBody.enc,
                   "req-limit-level:" ++ lvl sc.pathMax sc.serverMax, "resp-limit-level:" ++ lvl sc.poolMax sc.proxyMax,
                   s!"client-status:{c.status}", if contacted then "backend-contacted" else "backend-not-contacted"]
-                 ++ (if isHead then ["head"] else []),
+                 ++ (if isHead then ["head"] else []) ++ (if sc.compression ≥ 0 then ["proxy-compression"] else []),
          nontrivial := rel reqLim reqSrc != "under" || (contacted && rel respLim respSrc != "under") }
 
 def judges : List (String × Judge) := [("fetch", judgeFetch), ("e2e", judgeE2E)]
